@@ -11,103 +11,162 @@ def _names(node):
     return {x.id for x in ast.walk(node) if isinstance(x, ast.Name)}
 
 
-def _solve_via(prog, rep, qual, core_var='Q'):
-    """Every store into the core being optimised takes its value from the
-    result of _lstsq called with the caller's lamb and a slice of w."""
+def _enclosing(node, kinds):
+    cur = getattr(node, '_parent', None)
+    while cur is not None and not isinstance(cur, kinds):
+        cur = getattr(cur, '_parent', None)
+    return cur
+
+
+def _solve_via(prog, rep, qual):
+    """Every slice store inside a loop that solves a least-squares problem
+    takes its value from the result of _lstsq called with the caller's lamb
+    and a slice of w.  The loop and the stores are found from the _lstsq call
+    sites (no variable names involved)."""
     fn = prog.func(qual)
     mod = fn.module
     n = 0
+    loops = []
     for node in ast.walk(fn.node):
-        for t, v in paths.stores_in(node):
-            if not (isinstance(t, ast.Subscript) and
-                    isinstance(t.value, ast.Name) and t.value.id == core_var):
-                continue
-            n += 1
-            construct = paths.src(mod, node)
-            used = _names(v)
-            # nearest preceding assignment of a used name from _lstsq(...)
-            ok = False
-            why = 'value does not come from _lstsq'
-            blk = getattr(node, '_parent', None)
-            body = None
-            for name, b in paths._blocks(blk) if blk is not None else []:
-                if node in b:
-                    body = b
-            prev = body[:body.index(node)] if body else []
-            for st in reversed(prev):
-                if isinstance(st, ast.Assign) and isinstance(st.value, ast.Call) \
-                        and (prog.dotted(st.value.func) or '').endswith('_lstsq'):
-                    tgts = set()
-                    for tt in st.targets:
-                        tgts |= _names(tt)
-                    if not (tgts & used):
-                        continue
-                    kws = {k.arg: k.value for k in st.value.keywords}
-                    lam_ok = 'lamb' in kws and 'lamb' in _names(kws['lamb'])
-                    w_ok = 'w' in kws and 'w' in _names(kws['w'])
-                    ok = lam_ok and w_ok
-                    why = 'ok' if ok else '_lstsq is called without lamb= / w= '\
-                        'forwarded (lamb %s, w %s)' % (lam_ok, w_ok)
-                    break
-            rep.add('P-solve-via', qual, construct, 'ok' if ok else 'violation',
-                    '' if ok else 'a slice of the core is updated by a value '
-                    'that bypasses the regularised, weighted least-squares '
-                    'helper: %s' % why, line=node.lineno, file=mod.path)
+        if isinstance(node, ast.Assign) and isinstance(node.value, ast.Call) \
+                and (prog.dotted(node.value.func) or '').endswith('_lstsq'):
+            lp = _enclosing(node, (ast.For, ast.While))
+            if lp is not None and lp not in loops:
+                loops.append(lp)
+    seen = set()
+    for lp in loops:
+        for node in ast.walk(lp):
+            for t, v in paths.stores_in(node):
+                if not (isinstance(t, ast.Subscript) and
+                        isinstance(t.value, ast.Name)) or id(node) in seen:
+                    continue
+                seen.add(id(node))
+                n += 1
+                construct = paths.src(mod, node)
+                used = _names(v)
+                ok = False
+                why = 'value does not come from _lstsq'
+                blk = getattr(node, '_parent', None)
+                body = None
+                for name, b in paths._blocks(blk) if blk is not None else []:
+                    if node in b:
+                        body = b
+                prev = body[:body.index(node)] if body else []
+                for st in reversed(prev):
+                    if isinstance(st, ast.Assign) and \
+                            isinstance(st.value, ast.Call) and \
+                            (prog.dotted(st.value.func) or ''
+                             ).endswith('_lstsq'):
+                        tgts = set()
+                        for tt in st.targets:
+                            tgts |= _names(tt)
+                        if not (tgts & used):
+                            continue
+                        kws = {k.arg: k.value for k in st.value.keywords}
+                        lam_ok = 'lamb' in kws and \
+                            'lamb' in _names(kws['lamb'])
+                        w_ok = 'w' in kws and 'w' in _names(kws['w'])
+                        ok = lam_ok and w_ok
+                        why = 'ok' if ok else '_lstsq is called without ' \
+                            'lamb= / w= forwarded (lamb %s, w %s)' % (
+                                lam_ok, w_ok)
+                        break
+                rep.add('P-solve-via', qual, construct,
+                        'ok' if ok else 'violation',
+                        '' if ok else 'a slice of the core is updated by a '
+                        'value that bypasses the regularised, weighted '
+                        'least-squares helper: %s' % why, line=node.lineno,
+                        file=mod.path)
     return n
+
+
+def _weighted_branches(fn_node, wname='w'):
+    """(if-node, weighted statements, unweighted statements) for every test of
+    ``w is not None`` / ``w is None`` / ``not (...)`` in either arm order."""
+    for node in ast.walk(fn_node):
+        if not isinstance(node, ast.If):
+            continue
+        t, flip = node.test, False
+        while isinstance(t, ast.UnaryOp) and isinstance(t.op, ast.Not):
+            t, flip = t.operand, not flip
+        if not (isinstance(t, ast.Compare) and len(t.ops) == 1 and
+                isinstance(t.left, ast.Name) and t.left.id == wname and
+                isinstance(t.comparators[0], ast.Constant) and
+                t.comparators[0].value is None):
+            continue
+        if isinstance(t.ops[0], ast.Is):
+            flip = not flip
+        elif not isinstance(t.ops[0], ast.IsNot):
+            continue
+        yield (node, node.orelse, node.body) if flip else \
+            (node, node.body, node.orelse)
 
 
 def _lstsq_weights(prog, rep, qual='als._lstsq'):
     fn = prog.func(qual)
     mod = fn.module
     found = 0
-    for node in ast.walk(fn.node):
-        if isinstance(node, ast.If) and isinstance(node.test, ast.Compare) and \
-                isinstance(node.test.left, ast.Name) and \
-                node.test.left.id == 'w' and \
-                isinstance(node.test.ops[0], ast.IsNot):
-            found += 1
-            assigns = {}
-            for st in node.body:
-                if isinstance(st, ast.Assign) and \
-                        isinstance(st.targets[0], ast.Name):
-                    assigns[st.targets[0].id] = st.value
-            # every assigned quantity of the weighted branch depends on w
-            dep = set()
-            changed = True
-            while changed:
-                changed = False
-                for k, v in assigns.items():
-                    if k not in dep and (('w' in _names(v)) or
-                                         (_names(v) & dep)):
-                        dep.add(k)
-                        changed = True
-            other = {}
-            for st in node.orelse:
-                if isinstance(st, ast.Assign) and \
-                        isinstance(st.targets[0], ast.Name):
-                    other[st.targets[0].id] = st.value
-            need = set(other) & set(assigns) if other else \
-                set(assigns) - {'AW'}
-            miss = sorted(k for k in need if k not in dep)
-            rep.add('U-weight', qual, paths.src(mod, node.test) + ' branch: ' +
-                    ', '.join(sorted(assigns)),
-                    'ok' if not miss else 'violation',
-                    '' if not miss else 'in the weighted branch %s does not '
-                    'depend on w' % miss, line=node.lineno, file=mod.path)
+    for k_, (node, wbody, ubody) in enumerate(_weighted_branches(fn.node)):
+        found += 1
+        assigns = {}
+        for st in wbody:
+            if isinstance(st, ast.Assign) and \
+                    isinstance(st.targets[0], ast.Name):
+                assigns[st.targets[0].id] = st.value
+        # every assigned quantity of the weighted branch depends on w
+        dep = set()
+        changed = True
+        while changed:
+            changed = False
+            for k, v in assigns.items():
+                if k not in dep and (('w' in _names(v)) or
+                                     (_names(v) & dep)):
+                    dep.add(k)
+                    changed = True
+        other = {}
+        for st in ubody:
+            if isinstance(st, ast.Assign) and \
+                    isinstance(st.targets[0], ast.Name):
+                other[st.targets[0].id] = st.value
+        # quantities that leave the branch: those the other arm also defines,
+        # or (when it defines none) those not consumed inside the branch
+        if other:
+            need = set(other) & set(assigns)
+        else:
+            inner = set()
+            for v in assigns.values():
+                inner |= _names(v) & set(assigns)
+            need = {k for k in assigns if k not in inner or
+                    k in fn.all_params}
+        miss = sorted(k for k in need if k not in dep)
+        rep.add('U-weight', qual, 'weighted branch #%d of _lstsq: every '
+                'quantity that leaves it depends on w' % (k_ + 1),
+                'ok' if not miss else 'violation',
+                '' if not miss else 'in the weighted branch %s does not '
+                'depend on w' % miss, line=node.lineno, file=mod.path)
     if found < 2:
         rep.error('%s: expected two weighted branches, found %d' % (qual, found))
-    # ridge term
-    ok = False
+    # ridge term:  lstsq(<normal matrix> + lamb * identity, ...)
+    st_, detail = 'unknown', 'regularised solve not found'
     for node in ast.walk(fn.node):
         if isinstance(node, ast.Call) and \
-                (prog.dotted(node.func) or '').endswith('lstsq') and node.args:
+                (prog.dotted(node.func) or '').endswith('lstsq') and \
+                node.args and _enclosing(node, ast.If) is not None:
             a0 = node.args[0]
-            if isinstance(a0, ast.BinOp) and isinstance(a0.op, ast.Add) and \
-                    'lamb' in _names(a0) and 'AtA' in _names(a0):
-                ok = True
-    rep.add('U-ridge', qual, 'AtA + lamb * I', 'ok' if ok else 'violation',
-            '' if ok else 'the normal equations are no longer regularised by '
-            'lamb * identity')
+            gs = paths.guards_of(fn.node, node)
+            under_lamb = paths.holds(gs, 'lamb', ast.IsNot, 'None')
+            if not under_lamb:
+                continue
+            reg = isinstance(a0, ast.BinOp) and isinstance(a0.op, ast.Add) \
+                and any('lamb' in _names(x) and any(
+                    isinstance(c, ast.Call) and
+                    (prog.dotted(c.func) or '').split('.')[-1] in
+                    ('identity', 'eye') for c in ast.walk(x))
+                    for x in (a0.left, a0.right))
+            st_ = 'ok' if reg else 'violation'
+            detail = '' if reg else 'the normal equations are no longer ' \
+                'regularised by lamb * identity'
+    rep.add('U-ridge', qual, 'normal matrix + lamb * I', st_, detail)
 
 
 def check(an, rep, tier):
@@ -159,10 +218,25 @@ def check(an, rep, tier):
     for node in ast.walk(fn.node):
         if isinstance(node, ast.Raise):
             gs = paths.guards_of(fn.node, node)
-            t = [(paths.src(mod, g), pol) for g, pol in gs]
-            if any('allow_skip_cores' in s and pol for s, pol in t) and \
-                    any('unique' in s and '.shape[1]' in s and pol
-                        for s, pol in t):
+            skip_off = any(isinstance(g, ast.Name) and
+                           g.id == 'allow_skip_cores' and not pol
+                           for g, pol in paths.guard_atoms(gs))
+
+            def _is_unique_count(x):
+                return any(isinstance(c, ast.Call) and
+                           (prog.dotted(c.func) or '').endswith('unique')
+                           for c in ast.walk(x))
+
+            def _is_mode_size(x):
+                return any(isinstance(c, ast.Subscript) and
+                           isinstance(c.value, ast.Attribute) and
+                           c.value.attr == 'shape' and
+                           isinstance(c.slice, ast.Constant) and
+                           c.slice.value == 1 for c in ast.walk(x))
+            differs = any(oc is ast.NotEq and _is_unique_count(l) and
+                          _is_mode_size(r)
+                          for _, oc, _, l, r in paths.cmp_facts(gs))
+            if skip_off and differs:
                 wl = [n for n in ast.walk(fn.node) if isinstance(n, ast.While)]
                 if wl and node.lineno < wl[0].lineno:
                     ok = True
